@@ -76,6 +76,52 @@ func appendEvent(i ssa.Instruction) *types.Var {
 	return fv
 }
 
+// entityAppend: fn is the Append… method of an entity builder of the encoder packages (callers count a call of it as
+// one slot of the field that holds the builder).
+func entityAppend(fn *ssa.Function) bool {
+	if fn.Signature.Recv() == nil || !strings.HasPrefix(fn.Name(), "Append") || fn.Name() == "AppendNull" {
+		return false
+	}
+	n := core.NamedOf(fn.Signature.Recv().Type())
+	if n == nil || n.Obj().Pkg() == nil || !strings.HasSuffix(n.Obj().Name(), "Builder") {
+		return false
+	}
+	pp := n.Obj().Pkg().Path()
+	return encPkg(pp) || core.IsCanaryPath(pp)
+}
+
+// compositeNull: i appends a null to a struct or union builder; the library appends the matching slot to every child.
+func compositeNull(i ssa.Instruction, fv *types.Var) bool {
+	ci, ok := i.(ssa.CallInstruction)
+	if !ok {
+		return false
+	}
+	f := core.CalleeObj(ci)
+	if f == nil || f.Name() != "AppendNull" {
+		return false
+	}
+	n := core.NamedOf(fv.Type())
+	if n == nil || n.Obj().Pkg() == nil || n.Obj().Pkg().Path() != pkgBuilder {
+		return false
+	}
+	return n.Obj().Name() == "SparseUnionBuilder" || n.Obj().Name() == "StructBuilder"
+}
+
+// nullSlotOf: the pseudo column standing for "a null appended to composite builder fv" (kept apart from an
+// ordinary append to fv, which leaves the children to the caller).
+var nullSlots = map[*types.Var]*types.Var{}
+var nullSlotBase = map[*types.Var]*types.Var{}
+
+func nullSlotOf(fv *types.Var) *types.Var {
+	if v := nullSlots[fv]; v != nil {
+		return v
+	}
+	v := types.NewVar(fv.Pos(), fv.Pkg(), fv.Name()+"(null)", fv.Type())
+	nullSlots[fv] = v
+	nullSlotBase[v] = fv
+	return v
+}
+
 // rowVec: appends per column builder field on one path; rowSet: the distinct vectors over all paths.
 type rowVec map[*types.Var]int
 
@@ -259,17 +305,43 @@ func failReturn(r *ssa.Return) bool {
 		if mi, ok := v.(*ssa.MakeInterface); ok {
 			v = mi.X
 		}
-		switch x := v.(type) {
-		case *ssa.Call:
-			if f := core.CalleeObj(x); f != nil {
-				if f.Pkg() != nil && (strings.HasSuffix(f.Pkg().Path(), "/werror") || f.Pkg().Path() == "fmt" || f.Pkg().Path() == "errors") {
-					return true
-				}
-			}
-		case *ssa.UnOp:
-			if _, ok := x.X.(*ssa.Global); ok {
+		if freshError(v, 0) {
+			return true
+		}
+	}
+	return false
+}
+
+// freshError: v is an error made on the spot — a sentinel, errors.New / fmt.Errorf, or werror.Wrap of one of those.
+// `werror.Wrap(err)` of a variable that may be nil (the tail `return werror.Wrap(err)` shared by the arms of a
+// switch) is no failure by itself: the paths on which err is non-nil are cut at their `err != nil` tests.
+func freshError(v ssa.Value, depth int) bool {
+	if mi, ok := v.(*ssa.MakeInterface); ok {
+		v = mi.X
+	}
+	switch x := v.(type) {
+	case *ssa.Call:
+		f := core.CalleeObj(x)
+		if f == nil || f.Pkg() == nil {
+			return false
+		}
+		if f.Pkg().Path() == "fmt" || f.Pkg().Path() == "errors" {
+			return true
+		}
+		if strings.HasSuffix(f.Pkg().Path(), "/werror") {
+			if depth > 3 || len(x.Call.Args) == 0 {
 				return true
 			}
+			for _, a := range x.Call.Args {
+				if isErrorType(a.Type()) {
+					return freshError(a, depth+1)
+				}
+			}
+			return true
+		}
+	case *ssa.UnOp:
+		if _, ok := x.X.(*ssa.Global); ok {
+			return true
 		}
 	}
 	return false
@@ -463,6 +535,9 @@ func analyseRows(fn *ssa.Function, summaries func(*ssa.Function) *rowSet, emptyF
 	for _, b := range fn.Blocks {
 		for _, i := range b.Instrs {
 			if fv := appendEvent(i); fv != nil {
+				if compositeNull(i, fv) {
+					fv = nullSlotOf(fv)
+				}
 				v := rowVec{fv: 1}
 				note(b, &rowSet{vecs: map[string]rowVec{v.key(): v}})
 				continue
@@ -531,6 +606,9 @@ func analyseRows(fn *ssa.Function, summaries func(*ssa.Function) *rowSet, emptyF
 			for b := range body2 {
 				for k := range genFields[b] {
 					looped[k] = true
+					if b := nullSlotBase[k]; b != nil {
+						looped[b] = true
+					}
 				}
 			}
 		}
@@ -596,19 +674,41 @@ func analyseRows(fn *ssa.Function, summaries func(*ssa.Function) *rowSet, emptyF
 			continue
 		}
 		// project away looped fields, drop the all-zero vector (a skipped row), compare the rest
+		// A path that does nothing but append a null to a struct / union builder (`b.builder.AppendNull()`: the library
+		// fills the children) is a whole-row null: it is compared on that builder only.
 		fieldSet := map[*types.Var]bool{}
 		var vecs []rowVec
+		wholeNull := map[int]bool{}
+		emptyPath := false
 		for _, v := range final.vecs {
 			w := rowVec{}
+			onlyNull := true
 			for k, n := range v {
-				if !looped[k] && n != 0 {
-					w[k] = n
-					fieldSet[k] = true
+				base, isNull := k, false
+				if b := nullSlotBase[k]; b != nil {
+					base, isNull = b, true
+				}
+				if !looped[base] && n != 0 {
+					w[base] = min(w[base]+n, 3)
+					fieldSet[base] = true
+					if !isNull {
+						onlyNull = false
+					}
 				}
 			}
 			if len(w) > 0 {
+				if onlyNull {
+					wholeNull[len(vecs)] = true
+				}
 				vecs = append(vecs, w)
+			} else if len(v) == 0 {
+				emptyPath = true
 			}
+		}
+		// The Append method of an entity builder stands for one slot of that builder at its call sites: a path on which
+		// it reports success without having appended anything leaves the caller's row one slot short.
+		if emptyPath && len(vecs) > 0 && rg.kind == "body" && entityAppend(fn) {
+			findings = append(findings, rowFinding{types.NewVar(fn.Pos(), nil, "the builder as a whole (a path returns success without appending any slot)", types.Typ[types.Int]), []int{0, 1}, fn.Pos()})
 		}
 		var fields []*types.Var
 		for k := range fieldSet {
@@ -618,7 +718,10 @@ func analyseRows(fn *ssa.Function, summaries func(*ssa.Function) *rowSet, emptyF
 		for _, k := range fields {
 			checked = append(checked, k)
 			vals := map[int]bool{}
-			for _, v := range vecs {
+			for vi, v := range vecs {
+				if wholeNull[vi] && v[k] == 0 {
+					continue
+				}
 				vals[v[k]] = true
 			}
 			if len(vals) > 1 {
